@@ -468,6 +468,8 @@ pub struct Name { pub bytes: Vec<u8> }
 impl Name {
     pub open spec fn view(&self) -> Seq<u8> { self.bytes@ }
 }
+/// `String::new()`
+pub fn name_new() -> (r: Name) ensures r@ == Seq::<u8>::empty() { Name { bytes: Vec::new() } }
 /// borrowed text (`&str`), viewed as its bytes
 #[verifier::external_body]
 pub struct VStr { _p: u8 }
